@@ -170,11 +170,23 @@ pub struct Script {
     /// the event receiver is not polled before the end of the script (a slow consumer)
     #[serde(default)]
     pub lazy_events: bool,
+    /// version string of the greeting (None: 0.23.5)
+    #[serde(default)]
+    pub version: Option<String>,
+    /// the transport reports `is_write_vectored()` and accepts vectored writes (like a real socket);
+    /// a short write may then end in the middle of any of the buffers
+    #[serde(default)]
+    pub vectored: bool,
 }
 
 impl Script {
+    /// length of the greeting line the simulated server sends for this script
+    pub fn greeting_len(&self) -> usize {
+        self.version.as_ref().map_or(GREETING.len(), |v| "OK MPD ".len() + v.len() + 1)
+    }
+
     pub fn new(steps: Vec<Step>) -> Script {
-        Script { sched_seed: 1, seg: SegPattern::Whole, replies: Vec::new(), steps, max_write: None, picture: None, broken_pipe: true, greeting: None, lazy_events: false }
+        Script { sched_seed: 1, seg: SegPattern::Whole, replies: Vec::new(), steps, max_write: None, picture: None, broken_pipe: true, greeting: None, lazy_events: false, version: None, vectored: false }
     }
 }
 
@@ -265,6 +277,8 @@ pub struct Shared {
     start: Option<tokio::time::Instant>,
     pub last_io_ms: u64,
     pub all_written: Vec<u8>,
+    vectored: bool,
+    pub vectored_writes: usize,
 }
 
 pub type Handle = Arc<Mutex<Shared>>;
@@ -750,6 +764,12 @@ impl AsyncWrite for SimIo {
         let mut s = self.0.lock().unwrap();
         s.polls += 1;
         s.tick();
+        // a client that keeps writing without bound (no script makes it send more than a few hundred
+        // KB) is cut off the same way as one that polls without bound
+        if s.polls > 5_000_000 || s.all_written.len() > (64 << 20) {
+            s.polls = s.polls.max(5_000_001);
+            return Poll::Ready(Err(io::Error::other("harness: poll bound exceeded")));
+        }
         if s.write_stalled {
             s.write_waker = Some(cx.waker().clone());
             return Poll::Pending;
@@ -802,6 +822,17 @@ impl AsyncWrite for SimIo {
             }
         }
         Poll::Ready(Ok(n))
+    }
+
+    fn poll_write_vectored(self: Pin<&mut Self>, cx: &mut Context<'_>, bufs: &[io::IoSlice<'_>]) -> Poll<io::Result<usize>> {
+        // what a socket does: take bytes from the buffers in order, as many as it has room for
+        let joined: Vec<u8> = bufs.iter().flat_map(|b| b.iter().copied()).collect();
+        self.0.lock().unwrap().vectored_writes += 1;
+        self.poll_write(cx, &joined)
+    }
+
+    fn is_write_vectored(&self) -> bool {
+        self.0.lock().unwrap().vectored
     }
 
     fn poll_flush(self: Pin<&mut Self>, _cx: &mut Context<'_>) -> Poll<io::Result<()>> {
@@ -868,6 +899,8 @@ pub fn new_io(script: &Script, password: Option<Password>) -> (SimIo, Handle) {
         start: None,
         last_io_ms: 0,
         all_written: Vec::new(),
+        vectored: script.vectored,
+        vectored_writes: 0,
     };
     let h = Arc::new(Mutex::new(shared));
     {
@@ -875,7 +908,10 @@ pub fn new_io(script: &Script, password: Option<Password>) -> (SimIo, Handle) {
         match &script.greeting {
             None => {
                 // the greeting is one read of its own; the case's pattern applies to everything after it
-                s.server_write(GREETING);
+                match &script.version {
+                    None => s.server_write(GREETING),
+                    Some(v) => s.server_write(format!("OK MPD {v}\n").as_bytes()),
+                };
                 s.seg = script.seg.clone();
             }
             Some(g) => {
